@@ -341,7 +341,7 @@ Proof.
       * destruct C as (C1 & C2). split; auto.
   - (* producer *)
     destruct (pst s) eqn:Es; [destruct (pprog s) eqn:Ep|..].
-    + unfold sstep. rewrite Es, Ep. simpl. rewrite Q1, Ep. exact R.
+    + unfold sstep. Show. rewrite Es, Ep. simpl. rewrite Q1, Ep. exact R.
     + pose proof (p_step_ok s m R) as H. unfold sstep. rewrite Es, Ep in *.
       destruct (p_micro (mem s) (p :: l) PIdle) as [[[ls p'] ac] r]. simpl. apply H. right. congruence.
     + pose proof (p_step_ok s m R) as H. unfold sstep. rewrite Es in *.
